@@ -29,7 +29,7 @@ type scriptT struct {
 	writeBlock chan struct{} // if non-nil Write blocks until closed
 	flushBlock chan struct{} // if non-nil Flush blocks until closed or ctx done
 
-	wbuf    []byte          // written, not yet flushed
+	wbuf    []byte         // written, not yet flushed
 	onFlush func(b []byte) // called (outside the lock) with each flushed chunk
 	flushed [][]byte
 
